@@ -8,10 +8,12 @@ From Verif Require Import Base.Prim Cbor.Codec Suit.Py Run.Wire Cmd.SignPrim gen
 
 Definition kind_of (k ks : Z) : keykind :=
   if k =? 0 then KEc ks else if k =? 1 then KEd25519 else if k =? 2 then KEd448 else KOther.
-Fixpoint tab_keystore (t : list (bytes * Z * Z)) (name : bytes) : option (keykind * bytes) :=
+(* entries (context, name, kind, key size); the key is identified by context ++ "/" ++ name *)
+Definition ctx_bytes (c : option bytes) : bytes := match c with Some b => b | None => [] end.
+Fixpoint tab_keystore (t : list (bytes * bytes * Z * Z)) (ctx : option bytes) (name : bytes) : option (keykind * bytes) :=
   match t with
   | [] => None
-  | (n, k, ks) :: r => if list_eqb name n then Some (kind_of k ks, n) else tab_keystore r name
+  | (c, n, k, ks) :: r => if list_eqb name n && list_eqb (ctx_bytes ctx) c then Some (kind_of k ks, c ++ [47] ++ n) else tab_keystore r ctx name
   end.
 (* entries: (key, message, primitive 0 ecdsa / 1 eddsa / 2 eddsa_ph, a, b): ecdsa (unbe a, unbe b); others a *)
 Fixpoint tab_sig (t : list (bytes * bytes * Z * bytes * bytes)) (p : Z) (key msg : bytes) : option (bytes * bytes) :=
@@ -24,9 +26,9 @@ Definition t_ecdsa t (key h msg : bytes) (n : nat) : Z * Z :=
 Definition t_eddsa t (key msg : bytes) : bytes := match tab_sig t 1 key msg with Some (a, _) => a | None => [] end.
 Definition t_eddsa_ph t (key msg : bytes) : bytes := match tab_sig t 2 key msg with Some (a, _) => a | None => [] end.
 
-Definition as_key_entry (c : cbor) : option (bytes * Z * Z) :=
+Definition as_key_entry (c : cbor) : option (bytes * bytes * Z * Z) :=
   match c with
-  | CArray [n; k; ks] => match as_bytes n, as_int k, as_int ks with Some n, Some k, Some ks => Some (n, k, ks) | _, _, _ => None end
+  | CArray [x; n; k; ks] => match as_bytes x, as_bytes n, as_int k, as_int ks with Some x, Some n, Some k, Some ks => Some (x, n, k, ks) | _, _, _, _ => None end
   | _ => None end.
 Definition as_sig_entry (c : cbor) : option (bytes * bytes * Z * bytes * bytes) :=
   match c with
@@ -75,7 +77,7 @@ Definition c_single (r : bytes * nat) : cbor := CBytes (fst r).
 Definition c_pair_z {A} (f : A -> cbor) (r : list (bytes * A)) : cbor := CArray (map (fun p => CArray [CBytes (fst p); f (snd p)]) r).
 Definition c_effect (e : effect) : cbor :=
   match e with EfRaise x => CArray [CUint 0; CUint (exn_code x)] | EfRemove => CArray [CUint 1] | EfSkip => CArray [CUint 2] end.
-Definition no_keys (n : bytes) : option (keykind * bytes) := None.
+Definition no_keys (c : option bytes) (n : bytes) : option (keykind * bytes) := None.
 Definition no_ecdsa (k h m : bytes) (n : nat) : Z * Z := (0, 0).
 Definition no_ed (k m : bytes) : bytes := [].
 
@@ -156,13 +158,13 @@ Definition run (name : bytes) (args : list cbor) : option cbor :=
           Some (reply c_single (create_cose_es_signature no_keys (fun _ _ _ _ => (unbe r 0, unbe s 0)) no_ed no_ed O [] [] ks))
       | _, _, _ => None end
     | _ => None end
-  (* "sign_kms" data key_name alg keystore sigtab : SuitKMS.sign *)
+  (* "sign_kms" data key_name alg context keystore sigtab : SuitKMS.sign *)
   else if is name "sign_kms" then
     match args with
-    | [d; kn; alg; ks; st] =>
-      match as_bytes d, as_bytes kn, as_bytes alg, as_list_of as_key_entry ks, as_list_of as_sig_entry st with
-      | Some d, Some kn, Some alg, Some ks, Some st =>
-          Some (reply c_single (kms_sign (tab_keystore ks) (t_ecdsa st) (t_eddsa st) (t_eddsa_ph st) O d kn alg None))
-      | _, _, _, _, _ => None end
+    | [d; kn; alg; ctx; ks; st] =>
+      match as_bytes d, as_bytes kn, as_bytes alg, as_opt_str ctx, as_list_of as_key_entry ks, as_list_of as_sig_entry st with
+      | Some d, Some kn, Some alg, Some ctx, Some ks, Some st =>
+          Some (reply c_single (kms_sign (tab_keystore ks) (t_ecdsa st) (t_eddsa st) (t_eddsa_ph st) O d kn alg ctx))
+      | _, _, _, _, _, _ => None end
     | _ => None end
   else None.
